@@ -396,6 +396,10 @@ def run(ctx) -> None:
 from ..selftest import V  # noqa: E402
 
 SELFTEST = [
+    V("slot average accumulated in place into a view of the source (seeded C30-m6)", KB,
+      "        data = np.array([sum(dataall[ik] for ik in km) / len(km) for km in k_map])\n",
+      "        data = np.empty((len(k_map),) + dataall.shape[1:], dtype=dataall.dtype)\n        for i, km in enumerate(k_map):\n            acc = dataall[km[0]]\n            for ik in km[1:]:\n                acc += dataall[ik]\n            data[i] = acc / len(km)\n",
+      "fire", "R30.2"),
     V("Fortran-order slot index", TAB, "ind_grid = kpoints_int[:, 2] + grid[2] * (kpoints_int[:, 1] + grid[1] * kpoints_int[:, 0])",
       "ind_grid = kpoints_int[:, 0] + grid[0] * (kpoints_int[:, 1] + grid[1] * kpoints_int[:, 2])", "fire", "R30.1"),
     V("slot index uses the wrong stride", TAB, "ind_grid = kpoints_int[:, 2] + grid[2] * (kpoints_int[:, 1] + grid[1] * kpoints_int[:, 0])",
